@@ -144,7 +144,7 @@ func execOp(line string) (res string) {
 				break
 			}
 		}
-		return "ok " + nhx(w.PrivKey.D) + " " + b2s(w.CompressPubKey) + " " + strconv.Itoa(net)
+		return "ok " + nhx(w.PrivKey.D) + " " + b2s(w.CompressPubKey) + " " + strconv.Itoa(net) + " " + hx(w.SerialisePubKey())
 	case "addr":
 		if !argc(2) {
 			return bad
@@ -180,23 +180,38 @@ func execOp(line string) (res string) {
 		if !argc(1) {
 			return bad
 		}
+		ic := " C=" + b2s(bec.IsCompressedPubKey(B(0)))
 		k, err := bec.ParsePubKey(B(0), curve)
 		if err != nil {
-			return "err"
+			return "err" + ic
 		}
-		return "ok " + ptStr(k.X, k.Y)
+		return "ok " + ptStr(k.X, k.Y) + ic
 	case "serpub":
 		if !argc(2) {
 			return bad
 		}
 		k := pubOf(Nn(0), Nn(1))
 		return "ok " + hx(k.SerialiseUncompressed()) + " " + hx(k.SerialiseCompressed()) + " " + hx(k.SerialiseHybrid())
+	case "xk.dpub":
+		if !argc(2) {
+			return bad
+		}
+		k, err := bip32.NewKeyFromString(string(B(0)))
+		if err != nil {
+			return "err-import"
+		}
+		pk, err := k.DerivePublicKeyFromPath(string(B(1)))
+		if err != nil {
+			return "err"
+		}
+		return "ok " + hx(pk)
 	case "privbytes":
 		if !argc(1) {
 			return bad
 		}
 		priv, pub := bec.PrivKeyFromBytes(curve, B(0))
-		return "ok " + hx(priv.Serialise()) + " " + ptStr(pub.X, pub.Y)
+		pp := priv.PubKey() // the same key seen through PrivateKey.PubKey()
+		return "ok " + hx(priv.Serialise()) + " " + ptStr(pub.X, pub.Y) + " " + ptStr(pp.X, pp.Y)
 	case "impl.add":
 		return execOp("curve.add " + strings.Join(a, " "))
 	case "impl.double":
